@@ -260,7 +260,11 @@ Proof.
   destruct f as [s|s| |s m e]; try (destruct s); lia.
 Qed.
 Lemma stored_of_deg_range d : i32_ok (stored_of_deg d).
-Proof. apply cast_i32_range. Qed.
+Proof.
+  unfold stored_of_deg. cbv zeta.
+  destruct (BinarySingleNaN.Beqb _ _); [|apply cast_i32_range].
+  destruct (andb _ _); [apply cast_i32_range|]. destruct (andb _ _); apply cast_i32_range.
+Qed.
 
 (** what survives of the field values of a header that is written *)
 Definition header_fields_ok (h : header) : Prop :=
